@@ -139,7 +139,7 @@ Section Spec.
                                             end
                                | None => None
                                end
-                           | Some (FIndex i) =>
+                           | Some (FIndex i _) =>
                                match elem_of v i with
                                | Some fv => match tail_val (fst fp) fv with
                                             | Some cv => frontier (snd fp) cv
